@@ -163,6 +163,7 @@ fn search_rebasing(cx: &mut Ctx) {
 
 pub fn run(cx: &mut Ctx) {
     search_rebasing(cx);
+    bom_handling(cx);
     cx.rule("C13.O1", "for every node kind the effective linear fold order (the LinearLocator override in source_locator.rs if present, else the generated fold) visits the range-carrying children in the reference source order (refdata asdl_source_order, which C01.O1 ties to the grammar's binding order): the forward-only cursor never has to go back");
     cx.rule("C13.O2", "where two range-carrying list fields are interleaved in source (Dict keys/values, MatchMapping keys/patterns, Call args/keywords, ClassDef bases/keywords) the effective fold zips them or locates one of them with the look-ahead locator before folding the other");
     cx.rule("C13.O3", "overrides keep the fold contract: children that precede the node's own start (decorators) are folded before will_map_user; the context is taken before the other children and map_user(range, context) after them; every field is folded or carried exactly once and rebuilt under its own name");
@@ -677,4 +678,121 @@ fn stale_state(cx: &mut Ctx) {
         }
     }
     let _ = tables::lit_str;
+}
+
+
+/// C13.B1: a byte order mark is discounted exactly once, at the start of the text.
+fn bom_handling(cx: &mut Ctx) {
+    let rule = "C13.B1";
+    cx.rule(rule, "only a LEADING byte order mark is not a column: every test for U+FEFF (starts_with / strip_prefix / comparison with the BOM literal) in the line index (LineIndex::source_location or a helper) sits, in its own function, under the condition that the line starts at offset 0 (first line), and in the linear locator it occurs only where the initial state is built (LinearLocatorState::init, on the whole source); both locators have exactly one such test, so a U+FEFF anywhere else counts as one column in both");
+    cx.floor(rule, 2);
+    let bom = |e: &syn::Expr| -> bool {
+        let t = sm::tsc(e).to_lowercase();
+        t == "'\\u{feff}'" || t == "\"\\u{feff}\""
+    };
+    let first_line = regex_lite_first_line;
+    for (rel, want_fn) in [("vendored/src/source_location/line_index.rs", "source_location"), ("core/src/source_code.rs", "init")] {
+        let Ok(src) = sm::load(&cx.repo, rel) else {
+            cx.anchor_missing(rule, rel);
+            continue;
+        };
+        let mut sites = 0;
+        let mut fns: Vec<(String, &syn::Block)> = vec![];
+        for f in src.all_free_fns() {
+            fns.push((f.sig.ident.to_string(), &f.block));
+        }
+        for i in src.impls() {
+            for it in &i.items {
+                if let syn::ImplItem::Fn(f) = it {
+                    if !sm::is_cfg_test(&f.attrs) {
+                        fns.push((f.sig.ident.to_string(), &f.block));
+                    }
+                }
+            }
+        }
+        for (fname, block) in fns {
+            sm::for_each_expr_with_conds(block, &mut |e, conds| {
+                // a test: a method call / comparison with the BOM literal as an argument or operand
+                let (is_test, what) = match e {
+                    syn::Expr::MethodCall(mc) if mc.args.iter().any(|a| bom(a)) => (true, format!("{}.{}(BOM)", sm::tsc(&mc.receiver), mc.method)),
+                    syn::Expr::Binary(b) if matches!(b.op, syn::BinOp::Eq(_) | syn::BinOp::Ne(_)) && (bom(&b.left) || bom(&b.right) || sm::tsc(&b.left).to_lowercase().contains("some('\\u{feff}')") || sm::tsc(&b.right).to_lowercase().contains("some('\\u{feff}')")) => (true, sm::tsc(e)),
+                    _ => (false, String::new()),
+                };
+                if !is_test {
+                    return;
+                }
+                sites += 1;
+                if fname != want_fn && want_fn == "init" {
+                    cx.fail(rule, &format!("{}/{}/{}/where", rule, rel, fname), &src.loc(e), &format!("{}: `{}` tests for a BOM outside {} — a U+FEFF that is not at the start of the text would be discounted", fname, what, want_fn));
+                    return;
+                }
+                if want_fn == "source_location" {
+                    // (also in a helper of source_location: the first-line condition must then sit in the helper itself)
+                    // own condition (the `if` whose condition contains this test) or an enclosing one must pin the first line
+                    let own = enclosing_if_cond(block, e);
+                    let guarded = conds.iter().any(|c| first_line(c)) || own.as_deref().map_or(false, |c| first_line(c));
+                    if guarded {
+                        cx.ok(rule, &format!("{}: `{}` only for the line that starts at offset 0", fname, what));
+                    } else {
+                        cx.fail(rule, &format!("{}/{}/first-line", rule, rel), &src.loc(e), &format!("{}: `{}` is not restricted to the line starting at offset 0: a U+FEFF at the start of a later line (or of a slice) is not counted as a column, and the two locators disagree", fname, what));
+                    }
+                } else {
+                    let recv_ok = matches!(e, syn::Expr::MethodCall(mc) if sm::tsc(&mc.receiver) == "source");
+                    if recv_ok {
+                        cx.ok(rule, &format!("{}: `{}` on the whole source, once, when the initial state is built", fname, what));
+                    } else {
+                        cx.fail(rule, &format!("{}/{}/whole-source", rule, rel), &src.loc(e), &format!("{}: `{}` is not a test on the whole source text", fname, what));
+                    }
+                }
+            });
+        }
+        if sites != 1 {
+            cx.fail(rule, &format!("{}/{}/sites", rule, rel), rel, &format!("{} BOM tests found in {}, expected exactly 1 (in {})", sites, rel, want_fn));
+        }
+    }
+}
+
+fn regex_lite_first_line(c: &str) -> bool {
+    // `line_start == 0` in any of its spellings, not negated
+    if c.starts_with('!') {
+        return false;
+    }
+    for lhs in ["line_start", "row", "u32::from(line_start)", "line_start.to_u32()", "usize::from(line_start)"] {
+        for rhs in ["TextSize::from(0)", "TextSize::default()", "TextSize::new(0)", "0.into()", "0"] {
+            for (a, b) in [(lhs, rhs), (rhs, lhs)] {
+                let pat = format!("{}=={}", a, b);
+                if let Some(i) = c.find(&pat) {
+                    let after = c[i + pat.len()..].chars().next();
+                    let before = c[..i].chars().last();
+                    let ok_after = after.map_or(true, |ch| !(ch.is_alphanumeric() || ch == '_' || ch == '.'));
+                    let ok_before = before.map_or(true, |ch| !(ch.is_alphanumeric() || ch == '_' || ch == '.'));
+                    // must be a conjunct: no `||` at the top level of the condition
+                    if ok_after && ok_before && !c.contains("||") {
+                        return true;
+                    }
+                }
+            }
+        }
+    }
+    false
+}
+
+/// The condition of the innermost `if` whose condition contains `target`.
+fn enclosing_if_cond(block: &syn::Block, target: &syn::Expr) -> Option<String> {
+    let want = target as *const syn::Expr;
+    let mut found = None;
+    sm::for_each_expr_in_block(block, |e| {
+        if let syn::Expr::If(i) = e {
+            let mut inside = false;
+            sm::for_each_expr(&i.cond, |x| {
+                if std::ptr::eq(x as *const syn::Expr, want) {
+                    inside = true;
+                }
+            });
+            if inside {
+                found = Some(sm::tsc(&i.cond));
+            }
+        }
+    });
+    found
 }
